@@ -28,6 +28,10 @@ func readRules(input io.Reader) ([]rule, error) {
 		}
 		// Trim spaces
 		pattern = strings.TrimSpace(pattern)
+		// Ignore lines that hold nothing but whitespace, or a lone "!"
+		if len(pattern) == 0 || pattern == "!" {
+			continue
+		}
 		// Ignore comments
 		if pattern[0] == '#' {
 			continue
